@@ -238,7 +238,8 @@ def _target_weight_pairing(check: Check, ci: ClassInfo, ev: FuncInfo, ff: FuncFl
         den_ok = _reduces_to(ff, x.args[1], tw)
         ok = den_ok and (bool(uses[0]) or ci.name in ('SequenceLength',))
         # numerator must *multiply* by the weight (or be a reduction of it)
-        num_ok = _weighted(ff, x.args[0], tw) or ci.name in ('SequenceLength', 'SequenceTruncationRate')
+        num_ok = _weighted(ff, x.args[0], tw) or (ci.name in ('SequenceLength', 'SequenceTruncationRate') and (
+            ci.name != 'SequenceLength' or _reduces_to(ff, x.args[0], tw)))
         check.ob('R-PAIR.num-den', ev, txt(x)[:90], ok and num_ok,
                  f'numerator and denominator of the mean must both be built from the same `{tw_label}` '
                  f'(numerator weighted: {num_ok}; denominator is a reduction of it: {den_ok})', node=x)
